@@ -119,10 +119,50 @@ def check_c03(chk, rng):
 
 
 # ------------------------------------------------------------------------------------------------ C01
+def struct_program(rng, pid, horizon):
+    """a consumer that reads through a list path [outside producer, deep member] (either order): inside a sub-graph the
+    first becomes a boundary leaf, the second a locally produced one - each leaf must contribute its producer to the rank"""
+    nodes = [P.node("src", script=P.gen_script(rng, horizon, maxlen=5))]
+    if rng.random() < 0.5:
+        nodes.append(P.node("src", script=P.gen_script(rng, horizon, maxlen=4)))
+    nsrc = len(nodes)
+    prev = 1
+    members = []
+    for _ in range(rng.randint(2, 3)):
+        nodes.append(P.node(rng.choice(["pass", "add", "acc", "count"]), ins=[prev], k=rng.randint(1, 2)))
+        prev = len(nodes)
+        members.append(prev)
+    outside = rng.randint(1, nsrc)
+    ins = [outside, prev] if rng.random() < 0.7 else [prev, outside]
+    nodes.append(P.node(rng.choice(["lsum", "lsumv", "lsum"]), ins=ins))
+    members.append(len(nodes))
+    cons = len(nodes)
+    nodes.append(P.node("rec", ins=[cons]))
+    nodes.append(P.node("rec", ins=[prev]))          # the deep member is also read outside?  no: keep one external reader only
+    nodes.pop()
+    p = P.program(pid, nodes, start=1, end=horizon + 1)
+    ext = []
+    for i in members:
+        for j in nodes[i - 1]["ins"]:
+            if j not in members and j not in ext:
+                ext.append(j)
+    p["_group"] = (members, ext, cons)
+    return p
+
+
 def check_c01(chk, rng):
     n = 250 if chk.tier == "quick" else 3000
     fam = rand_family(rng, n, 1, chk, "rand", max_nodes=8, horizon=6)
     cases = []
+    sprogs = [struct_program(rng, 50000 + i, rng.choice([5, 6])) for i in range(60 if chk.tier == "quick" else 800)]
+    spreds, sres = dfcheck.predict(sprogs, tag="c01struct")
+    chk.add_tlc(sres, "structural-sources")
+    for p in sprogs:
+        g = p["_group"]
+        for mode, depth in (("inline", 1), ("nested", 1), ("nested", 2)):
+            cases.append(Case(p, spreds[p["id"]], P.render(p, group=g, mode=mode, depth=depth), "struct-%s/%d" % (mode, depth)))
+        if len(g[1]) == 2:
+            cases.append(Case(p, spreds[p["id"]], P.render(p, group=g, mode="nested", depth=1, outer=(g[1][0],)), "struct-nested/1+captured"))
     for p, pred in fam:
         cases.append(Case(p, pred, P.render(p), "flat"))
         gs = P.candidate_groups(p)
